@@ -209,10 +209,11 @@ func c13Exec(run *ev.Run, u *uni.U, gen *wh.CPGen, la wh.LogCfg, sc c13Scenario,
 		Witness:        w,
 	}
 	timers := 0
+	horizonHit := false
 	backoff.VerifTimerHook = func(d time.Duration) bool {
 		timers++
 		if timers > horizon {
-			cancelled = true
+			cancelled, horizonHit = true, true
 			cancel()
 			return false
 		}
@@ -396,7 +397,15 @@ func c13Exec(run *ev.Run, u *uni.U, gen *wh.CPGen, la wh.LogCfg, sc c13Scenario,
 	if lastOK != nil && err != nil && !cancelled {
 		run.Report(sig("error-after-success"), desc("an Update succeeded but FeedOnce reported an error"), rep)
 	}
-	// Retry succeeds once the failures clear (bounded failures, live context).
+	// Retry succeeds once the failures clear: the injected failures are fewer
+	// than the horizon, so a cycle that is still retrying when the horizon ends
+	// the context never succeeded although nothing was failing any more.
+	// (Excluded: the real witness legitimately refuses a fork for ever, and
+	// refuses growth from a stored size-0 checkpoint - C08's known finding.)
+	expectSuccess := !permanentSeen && (!sc.Real || (sc.Kind == "honest" && !(sc.W == 0 && sc.Head > 0)))
+	if horizonHit && expectSuccess && c.Deviations() < horizon-1 {
+		run.Report(sig("no-success-after-failures-cleared"), desc(fmt.Sprintf("after the injected failures stopped the cycle kept failing until the horizon (%d timer starts): last error %v", horizon, err)), rep)
+	}
 	if !cancelled && !permanentSeen && err != nil {
 		run.Report(sig("no-success-after-failures-cleared"), desc("the failures stopped and the context was live, yet the cycle did not succeed"), rep)
 	}
